@@ -128,22 +128,18 @@ def getOSeg (j : Json) : R OSeg := do
 /-- one chromosome of a profile: bin starts, true breakpoint (bins before it) or none, true levels, arms -/
 def oracleChrom (starts : List Int) (b : Option Nat) (lo hi : Rat) (arms : Nat)
     (segs : List OSeg) : List String :=
-  let n := starts.length
-  let tag (c : String) := c
-  let total := (segs.map (·.probes)).foldl (· + ·) 0
-  let cover := if total = (n : Int) then [] else [tag "probes_sum"]
   match b with
   | none =>
-    (if segs.length = arms then [] else [tag "flat_one_segment_per_arm"]) ++ cover
+    if segs.length = arms then [] else ["flat_one_segment_per_arm"]
   | some b =>
     match segs with
     | [s1, s2] =>
       -- the reported breakpoint = number of bins that start before the second segment
       let pos := starts.countP (fun x => decide (x < s2.s))
       let d : Int := (pos : Int) - (b : Int)
-      (if d.natAbs ≤ 5 ∧ (s1.probes - (b : Int)).natAbs ≤ 5 then [] else [tag "breakpoint_within_5_bins"]) ++
-      (if absQ (s1.log2 - lo) ≤ 1 / 10 ∧ absQ (s2.log2 - hi) ≤ 1 / 10 then [] else [tag "means_within_0.1"]) ++ cover
-    | _ => [tag "exactly_one_breakpoint"]
+      (if d.natAbs ≤ 5 then [] else ["breakpoint_within_5_bins"]) ++
+      (if absQ (s1.log2 - lo) ≤ 1 / 10 ∧ absQ (s2.log2 - hi) ≤ 1 / 10 then [] else ["means_within_0.1"])
+    | _ => ["exactly_one_breakpoint"]
 
 /-! ### handler -/
 
